@@ -169,6 +169,20 @@ class FailureDetection(Observer):
                 self.violate('not-fenced', {'observer': inst.nick, 'peer': ident, 'master': master, 'mstate': mstate},
                              'not-fenced')
 
+        if auto_fence and new == 'ISOLATED':
+            # the converse: fenced although the observer knew no Master in a working state, neither before nor after the
+            # event that invalidated the peer
+            cur_state = inst.supvisors.state_modes.master_state
+            cur_working = bool(inst.supvisors.state_modes.master_identifier) and cur_state is not None \
+                and cur_state.name in WORKING
+            self._probe('fence_checked')
+            if not (master and mstate in WORKING) and not cur_working:
+                self.violate('fenced-without-working-master',
+                             {'observer': inst.nick, 'peer': ident, 'master_before': [master, mstate],
+                              'master_after': [inst.supvisors.state_modes.master_identifier,
+                                               cur_state.name if cur_state is not None else None],
+                              'own_state': inst.supvisors.fsm.state.name}, 'fenced-without-working-master')
+
     def _check_completeness(self, sim, inst, cur, k, ticks):
         okey = (inst.nick, inst.incarnation)
         for ident, state in cur.items():
